@@ -35,7 +35,15 @@ def main(argv=None) -> int:
             print(f"{prop} replay: case no longer violates")
         return 1 if unknown else 0
     ctx = common.Ctx(prop, a.tier, seed)
-    return mod.run(ctx)
+    try:
+        return mod.run(ctx)
+    except Exception as e:  # noqa: BLE001
+        if not (ctx.capped and ctx.violations):
+            raise
+        # the exploration was aborted after repeated non-terminating cases and the coverage summary of the property
+        # module could not be computed from the partial results: the violations found so far are still reported
+        return ctx.finish("exploration", {"aborted": True, "summary_error": f"{type(e).__name__}: {e}"},
+                          ["exploration aborted: see cap_hit"])
 
 
 if __name__ == "__main__":
